@@ -28,7 +28,7 @@ impl NetflowParser {
 //@   contract: stubs/lib_ppbv.rs
 //@   closure 0: p | -> (o: (&'a [u8], u16)) ensures o.0 == p.0, o.1 == p.1.version
 //@   closure 1: - | -> (o: NetflowParseError) ensures o is Incomplete
-//@   before "let (packet, version)": broadcast use lemma_cloned_u8;
+//@   before "let (packet, version)": broadcast use lemma_cloned_u8; broadcast use lemma_suffix_after2;
 //@ end
 }
 
